@@ -17,6 +17,7 @@
 import PacketVerif.Model.Dhcp4File
 import PacketVerif.Lemmas.Dhcp4Srv
 import PacketVerif.Lemmas.Dhcp4Seal
+import PacketVerif.Props.C12
 namespace PV.Props.C18
 open PV PV.Model.Dhcp4Srv PV.Model.Dhcp4File PV.Lemmas.Dhcp4Srv PV.Lemmas.Dhcp4Seal
 
@@ -362,6 +363,142 @@ example : (construct ⟨0, 28, 1, 9, 1, 1⟩ ⟨8, 29, 9, 9, 77, 3⟩ (fun m => 
                 ([3], ⟨.free, [0, 3], some 12, none, [9], .net1, 3⟩)] }))) =
     .ok { net1 := ⟨0, 28, 1, .v4 9, .v4 1, 1, 14400, 1⟩, net2 := ⟨8, 29, 9, .v4 9, .v4 77, 9, 14400, 3⟩,
           table := [([1], ⟨.allocated, [0, 1], some 10, none, [7], .net2, 500⟩)] } := by decide
+
+/-! ### the bridge from the server's invariant (C11) to `Good` (audit F12) -/
+
+/-- messages carry a hardware address (6 bytes on the wire): what makes every client identifier non-empty -/
+def OpWF (op : Op) : Prop := ∀ m, C11.msgOf op = some m → m.chaddr ≠ []
+
+theorem clientId_ne_nil {m : Msg} (h : m.chaddr ≠ []) : clientId m ≠ [] := by
+  unfold clientId
+  cases hc : m.cidOpt with
+  | none => exact h
+  | some c =>
+    by_cases he : c.isEmpty = true
+    · simp [he]; exact h
+    · have he' : c.isEmpty = false := by simpa using he
+      simp only [he', Bool.false_eq_true, if_false]
+      intro hn; rw [hn] at he'; simp at he'
+
+/-- every key of the lease table is the client identifier of some message -/
+theorem keys_step {cfg : Cfg} {s : State} (hk : ∀ e, e ∈ s.table → e.1 ≠ []) (op : Op) (hw : OpWF op)
+    (o : State × List Reply) (ho : o ∈ step cfg s op) : ∀ e, e ∈ o.1.table → e.1 ≠ [] := by
+  have hset : ∀ (c : Cid) (v : Lease) (s' : State), c ≠ [] → s'.table = setLease s.table c v → ∀ e, e ∈ s'.table → e.1 ≠ [] := by
+    intro c v s' hc hs' e he
+    rw [hs'] at he
+    cases e with
+    | mk k l =>
+      rcases mem_setLease.1 he with ⟨rfl, _⟩ | ⟨_, hm⟩
+      · exact hc
+      · exact hk _ hm
+  cases op with
+  | discover now m =>
+    simp only [step, List.mem_singleton] at ho; subst ho
+    have hc := clientId_ne_nil (hw m rfl)
+    rcases discover_outcome cfg s now m with ⟨cur, e⟩ | ⟨s1, ip, _, _, _, e, _⟩ <;> rw [e]
+    · intro e' he'
+      cases e' with
+      | mk k l => exact hk _ (mem_delLease.1 he').2
+    · exact hset _ _ _ hc rfl
+  | request now m =>
+    simp only [step, List.mem_singleton] at ho; subst ho
+    have hc := clientId_ne_nil (hw m rfl)
+    rcases request_outcome cfg s now m with e | ⟨l', rs, _, e, _⟩ | ⟨_, e⟩
+    · rw [e]; exact hk
+    · rw [e]; exact hset _ _ _ hc rfl
+    · rw [e, ackLease_eq]; exact hset _ _ _ hc rfl
+  | decline m =>
+    simp only [step, List.mem_singleton] at ho; subst ho
+    have hc := clientId_ne_nil (hw m rfl)
+    rcases decline_outcome cfg s m with e | e <;> rw [e] <;> exact hset _ _ _ hc rfl
+  | release m =>
+    simp only [step, List.mem_singleton] at ho; subst ho
+    exact hset _ _ _ (clientId_ne_nil (hw m rfl)) rfl
+  | minuteTick now =>
+    simp only [step, List.mem_singleton] at ho; subst ho
+    intro e he
+    cases e with
+    | mk k l =>
+      obtain ⟨l0, hm0, _⟩ := mem_freeLeases he
+      exact hk (k, l0) hm0
+  | capture mac => simp only [step, List.mem_singleton] at ho; subst ho; exact hk
+  | releaseCapture mac => simp only [step, List.mem_singleton] at ho; subst ho; exact hk
+  | hostSeen ip mac => simp only [step, List.mem_singleton] at ho; subst ho; exact hk
+  | hostGone ip => simp only [step, List.mem_singleton] at ho; subst ho; exact hk
+
+theorem keys_reachable (cfg : Cfg) : ∀ (ops : List Op) (s : State), (∀ op, op ∈ ops → OpWF op) →
+    (∀ e, e ∈ s.table → e.1 ≠ []) → ∀ s', s' ∈ run cfg s ops → ∀ e, e ∈ s'.table → e.1 ≠ []
+  | [], s, _, hk, s', hs => by simp [run] at hs; rw [hs]; exact hk
+  | op :: ops, s, hw, hk, s', hs => by
+    simp only [run, List.mem_flatMap] at hs
+    obtain ⟨o, ho, hs'⟩ := hs
+    exact keys_reachable cfg ops o.1 (fun op' h' => hw op' (List.mem_cons_of_mem _ h'))
+      (keys_step hk op (hw op (List.mem_cons_self ..)) o ho) s' hs'
+
+/-- **the bridge `restart_roundtrip` needs.**  For a server constructed by `Config.New` from a configuration it accepts
+    (`NewCfg.accepted`: the netfilter prefix lies inside the home LAN — enforced since fix ebe424c; without it a captured
+    client was acknowledged an address outside the home LAN and its lease was dropped on reload), every allocated lease of
+    every state reachable by messages that carry a hardware address is `Good` for the home subnet: non-empty client
+    identifier, address inside the home prefix.  (`n1` is the file model's record of the home subnet.) -/
+theorem good_of_reachable (n : NewCfg) (ha : n.accepted = true) (n1 : LSub)
+    (hl : n1.lan = (mkCfg n).net1.lan) (hb : n1.bits = (mkCfg n).net1.bits)
+    (ops : List Op) (hw : ∀ op, op ∈ ops → OpWF op) (s : State) (hs : s ∈ run (mkCfg n) (init (mkCfg n)) ops) :
+    ∀ e, e ∈ s.table → e.2.state = .allocated → Good n1 e := by
+  intro e he hst
+  have hI : TInv (mkCfg n) s.table := C11.inv_reachable (mkCfg n) ops (init (mkCfg n)) (C11.inv_init _) s hs
+  have hk := keys_reachable (mkCfg n) ops (init (mkCfg n)) hw (by intro e he; simp [init] at he) s hs e he
+  cases e with
+  | mk c l =>
+    have hok := hI.ok c l he
+    have hsome := hok.allocSome hst
+    cases hip : l.ip with
+    | none => rw [hip] at hsome; simp at hsome
+    | some ip =>
+      refine ⟨hst, hk, ip, hip, ?_⟩
+      have hus := hok.ipUsable ip hip
+      have hc : ((mkCfg n).sub l.sub).contains ip = true := by
+        unfold usable at hus
+        simp only [Bool.and_eq_true] at hus
+        exact hus.1.1.1.1.1
+      have h1 : (mkCfg n).net1.contains ip = true := by
+        cases hsub : l.sub <;> rw [hsub] at hc
+        · exact hc
+        · exact C12.accepted_net2_in_net1 n ha ip hc
+      simp only [pcontains, psize, hl, hb]
+      simpa [Subnet.contains, Subnet.size] using h1
+
+/-- `restart_roundtrip` for reachable states: no `Good` hypothesis left -/
+theorem restart_roundtrip_reachable (n : NewCfg) (ha : n.accepted = true) (home nf : Expected) (captured : MAC → Bool)
+    (n1 n2 : LSub) (hl : n1.lan = (mkCfg n).net1.lan) (hb : n1.bits = (mkCfg n).net1.bits)
+    (h1 : newSubnet (subRecOf n1) = .ok n1) (h2 : newSubnet (subRecOf n2) = .ok n2)
+    (hc1 : configChanged home n1 = false) (hc2 : configChanged nf n2 = false)
+    (ops : List Op) (hw : ∀ op, op ∈ ops → OpWF op) (s : State) (hs : s ∈ run (mkCfg n) (init (mkCfg n)) ops) :
+    ∃ b', construct home nf captured (some (save ⟨n1, n2, s.table⟩)) = .ok b' ∧ b'.net1 = n1 ∧ b'.net2 = n2
+      ∧ ∀ c l', (c, l') ∈ b'.table ↔ ∃ l, (c, l) ∈ s.table ∧ l.state = .allocated ∧ l' = reloaded captured n2 l := by
+  have hI : TInv (mkCfg n) s.table := C11.inv_reachable (mkCfg n) ops (init (mkCfg n)) (C11.inv_init _) s hs
+  obtain ⟨b', e, e1, e2, _, hm⟩ := restart_roundtrip home nf captured ⟨n1, n2, s.table⟩ h1 h2 hc1 hc2 hI.keys
+    (good_of_reachable n ha n1 hl hb ops hw s hs)
+  exact ⟨b', e, e1, e2, hm⟩
+
+/-- the subnet `Config.New` builds when there is no usable lease file (`construct … none`: `newSubnet` on the expected
+    configuration) is the subnet of C12's `mkCfg`: the two models of `New` agree -/
+theorem newSubnet_expected (e : Expected) (n : LSub) (h : newSubnet (expectedRec e) = .ok n) :
+    toSubnet n = mkSubnet e.lan e.bits e.gw e.dns e.server := by
+  unfold newSubnet expectedRec at h
+  simp only [] at h
+  by_cases hlt : e.lan / psize e.bits * psize e.bits + 1 < 4294967296
+  · simp only [hlt, if_true] at h
+    repeat' split at h
+    all_goals first
+      | (simp only [Outcome.ok.injEq] at h; subst h; simp_all [toSubnet, mkSubnet, psize]; done)
+      | (simp at h; done)
+      | (cases h; done)
+  · simp only [hlt, if_false] at h
+    repeat' split at h
+    all_goals first
+      | (simp at h; done)
+      | (cases h; done)
+      | (simp_all; done)
 
 /-! ### the integrity line: damaged files -/
 
